@@ -2172,8 +2172,9 @@ def r8(ctx: RuleCtx) -> None:
     quoter = None
     trw = L.Tracer(w)
 
-    def harvest(e: ast.AST, at: Node, depth: int = 0) -> None:
+    def harvest(e: ast.AST, at: Node, depth: int = 0, fi: T.Optional[L.FnInfo] = None) -> None:
         nonlocal quoter
+        fi = fi or w
         parts = L.template_parts(e)
         if parts is None:
             raise Undecided(f'write(): `{short(e, 60)}` uses format specs')
@@ -2194,19 +2195,29 @@ def r8(ctx: RuleCtx) -> None:
                                 quoter = c.func.id
                             elif any(isinstance(x, ast.Name) for x in c.args):
                                 raise Undecided(f'write(): `{short(c, 60)}` quotes a path of the build line without is_build_line=True')
+                elif isinstance(p_, ast.Call) and isinstance(p_.func, ast.Name) and mod.has_func(p_.func.id) and depth < 3 and \
+                        'is_build_line' not in _param_names(mod.func(p_.func.id), skip_self=False):
+                    # a module-level helper that builds part of the line: harvest its return expressions
+                    hi = L.FnInfo(mod, p_.func.id, mod.func(p_.func.id))
+                    rets = [x for x in walk_no_nested(hi.fn, include_root=False) if isinstance(x, ast.Return) and x.value is not None]
+                    if not rets:
+                        raise Undecided(f'write(): helper `{p_.func.id}` returns nothing')
+                    for r_ in rets:
+                        if hi.cfg.stmt_nodes(r_):
+                            harvest(r_.value, hi.cfg.stmt_nodes(r_)[0], depth + 1, hi)  # type: ignore[arg-type]
                 elif isinstance(p_, ast.Name) and p_.id != lv and depth < 3:
                     # a local is part of the path lists only if quoted paths flow into it (the rule name does not)
-                    org = trw.origins(p_, at)
-                    if any(o.startswith('call:') and mod.has_func(o[5:]) and 'is_build_line' in _param_names(mod.func(o[5:]), skip_self=False) for o in org):
-                        for d in w.reaching(p_.id, at):
+                    org = L.Tracer(fi).origins(p_, at)
+                    if any(o.startswith('call:') and mod.has_func(o[5:]) for o in org):
+                        for d in fi.reaching(p_.id, at):
                             if isinstance(d, L.Def) and d.value is not None and d.kind in ('assign', 'aug'):
-                                harvest(d.value, d.node, depth + 1)
+                                harvest(d.value, d.node, depth + 1, fi)
                 elif isinstance(p_, ast.Name) or attr_chain(p_) is not None:
                     pass            # the line so far / a field (the rule name): no constant text of this function
                 else:
                     raise Undecided(f'write(): part `{short(p_, 60)}` of the build line is not a constant, a quoted path list or a local')
             else:
-                harvest(p_, at, depth)
+                harvest(p_, at, depth, fi)
     # all definitions of the line variable that reach its write, except rewrites of the finished line (replace / split on Windows)
     fresh_defs = [d.node for d in w.defs().get(lv, []) if d.kind == 'assign' and d.value is not None and not any(isinstance(x, ast.Name) and x.id == lv for x in ast.walk(d.value))
                   and d.node.id != node.id]
@@ -2231,18 +2242,38 @@ def r8(ctx: RuleCtx) -> None:
     qi = L.FnInfo(mod, quoter, qf)
     qp = _param_names(qf, skip_self=False)
     text_p = qp[0]
-    # the pattern used for build lines: `A if is_build_line else B`
+    # the pattern used for build lines: `A if is_build_line else B`, or assigned under `if is_build_line:`; a single unconditional pattern also counts
     pats = []
+    allre = []
+    pmq = mod.parent_map()
     for n in qi.cfg.nodes:
         for r in L.node_roots(n):
             for x in walk_no_nested(r):
-                if isinstance(x, ast.IfExp) and isinstance(x.test, ast.Name) and x.test.id == 'is_build_line':
-                    try:
-                        v = fold_expr(ctx.repo, mod, x.body)
-                    except Exception:
-                        v = None
-                    if isinstance(v, Regex):
+                if not isinstance(x, (ast.Name, ast.Attribute, ast.Call)) or isinstance(pmq.get(x), ast.Attribute):
+                    continue
+                if isinstance(x, ast.Name) and (x.id in qi.params or qi.defs().get(x.id)):
+                    continue
+                try:
+                    v = fold_expr(ctx.repo, mod, x)
+                except Exception:
+                    continue
+                if not isinstance(v, Regex):
+                    continue
+                allre.append(v.pattern)
+                par = pmq.get(x)
+                if isinstance(par, ast.IfExp) and isinstance(par.test, ast.Name) and par.test.id == 'is_build_line':
+                    if par.body is x:
                         pats.append(v.pattern)
+                    continue
+                for t_ in qi.cfg.nodes:
+                    if t_.kind == 'test' and isinstance(t_.ast.test, ast.Name) and t_.ast.test.id == 'is_build_line':  # type: ignore[union-attr]
+                        ts = [qi.cfg.nodes[b] for b, lab in qi.cfg.succ[t_.id] if lab is True]
+                        fs = [qi.cfg.nodes[b] for b, lab in qi.cfg.succ[t_.id] if lab is False]
+                        if n.id in qi.cfg.reachable(ts, [], include_start=True) and n.id not in qi.cfg.reachable(fs, [], include_start=True):
+                            pats.append(v.pattern)
+    if not pats and len(set(allre)) == 1:
+        pats = [allre[0]]
+    pats = sorted(set(pats))
     if len(pats) != 1:
         raise Undecided(f'{quoter}: the regular expression used for build lines was not found ({len(pats)} candidates)')
     rejected = set()
